@@ -240,7 +240,7 @@ def literalised(term, rows, seed, max_rows=2):
     """Metamorphic companions of a case: [(row index, term')] where term' is the filter with every reference
     to an Int column replaced by that row's own value written as an integer literal. For that row the filter
     and its companion denote the same thing whatever the reading of the operators (also where the reference
-    evaluator leaves a row undecided: negative mod, inexact division), so a backend must treat the row alike."""
+    evaluator abstains: division by zero, unfenced inexact division), so a backend must treat the row alike."""
     import random
     cols = sorted({x[1] for x in walk(term) if x[0] == "id" and not x[2] and x[1] in INT_COLS})
     if not cols:
